@@ -212,11 +212,22 @@ Lemma run_calls_time : forall evs s now,
   Forall tick_nonneg evs -> Forall (fun e => now <= e_t e) (run_calls s now evs).
 Proof.
   induction evs as [|ev evs IH]; intros s now Hnn; [constructor|].
-  inversion Hnn as [|? ? Hev Hrest]; subst.
+  pose proof (Forall_inv Hnn) as Hev. pose proof (Forall_inv_tail Hnn) as Hrest.
   destruct ev as [a o | d]; cbn [run_calls].
   - destruct (call_step s now a o) as [s' [rt rs]]. constructor; [cbn; lia|]. apply IH; auto.
   - cbn in Hev. specialize (IH s (now + d) Hrest).
     eapply Forall_impl; [|exact IH]. cbn. intros; lia.
+Qed.
+
+Lemma call_step_cool : forall s now a o s' x,
+  call_step s now a o = (s', x) -> cool s' = cool s.
+Proof.
+  intros s now a o s' [rt rs] Hstep.
+  apply call_step_cases in Hstep. cbn zeta in Hstep.
+  destruct (read_spec s now) as (_ & _ & _ & _ & _ & Rc).
+  destruct (exit_handled_spec (fst (read s now)) now) as (_ & _ & Ec & _).
+  destruct Hstep as [(_ & _ & [(_ & E & _) | [(_ & E & _) | (_ & E & _)]]) | (_ & _ & _ & E)];
+    subst s'; cbn [validate_ok cool]; congruence.
 Qed.
 
 Lemma stays_open : forall c tf evs s now,
@@ -225,9 +236,10 @@ Lemma stays_open : forall c tf evs s now,
   Forall (fun e => e_t e < tf + c * ms_per_s -> e_routed e = false) (run_calls s now evs).
 Proof.
   intros c tf evs. induction evs as [|ev evs IH]; intros s now Hnn Hc HJ; [constructor|].
-  inversion Hnn as [|? ? Hev Hrest]; subst.
+  pose proof (Forall_inv Hnn) as Hev. pose proof (Forall_inv_tail Hnn) as Hrest.
   destruct ev as [a o | d]; cbn [run_calls].
   - destruct (call_step s now a o) as [s' [rt rs]] eqn:Hstep.
+    pose proof (call_step_cool _ _ _ _ _ _ Hstep) as Hc'.
     destruct HJ as [[Hok Hst] | Hlate].
     + destruct (Z_lt_le_dec (now - started s) (cool s * ms_per_s)) as [Hlt | Hge].
       * (* still inside the cool-down: state_ok answers false, nothing changes *)
@@ -236,21 +248,9 @@ Proof.
         constructor; [cbn; auto|]. apply IH; auto.
       * (* the cool-down is over at this instant: every later instant is late too *)
         constructor; [cbn [e_t]; intros; lia|].
-        assert (Hc' : cool s' = cool s).
-        { apply call_step_cases in Hstep. cbn zeta in Hstep.
-          destruct (read_spec s now) as (_ & _ & _ & _ & _ & Rc).
-          destruct Hstep as [(_ & _ & [(_ & E & _) | [(_ & E & _) | (_ & E & _)]]) | (_ & _ & _ & E)];
-            subst s'; cbn [validate_ok cool]; auto.
-          destruct (exit_handled_spec (fst (read s now)) now) as (_ & _ & Ec & _). congruence. }
-        apply IH; auto. right. lia.
+        apply IH; [assumption | congruence | right; lia].
     + constructor; [cbn [e_t]; intros; lia|].
-      assert (Hc' : cool s' = cool s).
-      { apply call_step_cases in Hstep. cbn zeta in Hstep.
-        destruct (read_spec s now) as (_ & _ & _ & _ & _ & Rc).
-        destruct Hstep as [(_ & _ & [(_ & E & _) | [(_ & E & _) | (_ & E & _)]]) | (_ & _ & _ & E)];
-          subst s'; cbn [validate_ok cool]; auto.
-        destruct (exit_handled_spec (fst (read s now)) now) as (_ & _ & Ec & _). congruence. }
-      apply IH; auto. rewrite Hc'. auto.
+      apply IH; [assumption | congruence | right; lia].
   - cbn in Hev. apply IH; auto.
     destruct HJ as [HJ | HJ]; [left; exact HJ | right; lia].
 Qed.
@@ -265,7 +265,7 @@ Lemma opens_at_threshold_gen : forall n c evs s now h,
 Proof.
   intros n c evs. induction evs as [|ev evs IH]; intros s now h HI Hnn pre f post Hrun Hgf Hn.
   - destruct pre; discriminate.
-  - inversion Hnn as [|? ? Hev Hrest]; subst.
+  - pose proof (Forall_inv Hnn) as Hev. pose proof (Forall_inv_tail Hnn) as Hrest.
     destruct ev as [a o | d]; cbn [run_calls] in Hrun.
     + destruct (call_step s now a o) as [s' [rt rs]] eqn:Hstep.
       destruct (call_step_inv n c s h now a o s' rt rs HI Hstep) as (HI' & _ & Hopen & _).
@@ -387,13 +387,15 @@ Lemma is_external_ip_exact : forall a b c d,
   wf_quad a b c d = true -> is_external_ip a b c d = negb (private_addr a b c d).
 Proof.
   intros a b c d W. unfold wf_quad in W.
-  repeat (apply andb_true_iff in W; destruct W as [W ?]).
-  apply octet_range in W.
-  repeat match goal with E : octet _ = true |- _ => apply octet_range in E end.
+  apply andb_true_iff in W. destruct W as [W Hd].
+  apply andb_true_iff in W. destruct W as [W Hc].
+  apply andb_true_iff in W. destruct W as [Ha Hb].
+  apply octet_range in Ha. apply octet_range in Hb.
+  apply octet_range in Hc. apply octet_range in Hd.
   destruct (ip_int_shifts a b c d) as (S24 & S20 & S16); try lia.
   unfold is_external_ip. rewrite range_for_prefix by lia. f_equal.
   unfold expected_range, in_net, private_addr.
-  assert (Hbd : 0 <= b / 16 <= 15) by (split; [apply Z.div_pos; lia | apply Z.div_le_upper_bound; lia]).
+  assert (Hbd : 0 <= b / 16 < 16) by (split; [apply Z.div_pos; lia | apply Z.div_lt_upper_bound; lia]).
   assert (Hb16 : (16 <=? b) && (b <=? 31) = (b / 16 =? 1)).
   { destruct (b / 16 =? 1) eqn:E.
     - apply Z.eqb_eq in E. pose proof (Z.div_mod b 16 ltac:(lia)). pose proof (Z.mod_pos_bound b 16 ltac:(lia)).
